@@ -246,6 +246,14 @@ func Execute(s Seq) (out Real) {
 		chain.ProcessFilter(req, resp)
 		out.Final = &[2]int{resp.StatusCode(), resp.ContentLength()}
 	})
+	if len(s.Ops)%2 == 1 {
+		// every other sequence: a net/http middleware adapted with HttpMiddlewareHandlerToFilter sits between
+		// the observing filter and the route function (it only passes on); what the observer reads
+		// afterwards must still be what the handler did
+		ws.Filter(restful.HttpMiddlewareHandlerToFilter(func(next http.Handler) http.Handler {
+			return http.HandlerFunc(func(w http.ResponseWriter, r *http.Request) { next.ServeHTTP(w, r) })
+		}))
+	}
 	c.Add(ws)
 	req := &http.Request{Method: "GET", URL: &url.URL{Path: "/r/x"}, Header: http.Header{}, Body: http.NoBody}
 	if coding != "" {
